@@ -12,6 +12,8 @@ use std::collections::BTreeMap;
 
 pub type Args = BTreeMap<String, String>;
 
+pub static LAST_PANIC_AT: std::sync::Mutex<String> = std::sync::Mutex::new(String::new());
+
 /// Argument transport: control characters and backslash travel as \\n \\r \\t \\\\ so that one argument is one line.
 fn esc(v: &str) -> String {
     v.replace('\\', "\\\\").replace('\n', "\\n").replace('\r', "\\r").replace('\t', "\\t")
@@ -41,7 +43,12 @@ fn unesc(v: &str) -> String {
 }
 
 fn main() {
-    std::panic::set_hook(Box::new(|_| {}));
+    // remember where the last panic happened (file:line) so that a witness can be matched with a failed obligation's site
+    std::panic::set_hook(Box::new(|info| {
+        if let Some(l) = info.location() {
+            *LAST_PANIC_AT.lock().unwrap() = format!("{}:{}", l.file(), l.line());
+        }
+    }));
     let argv: Vec<String> = std::env::args().collect();
     if argv.len() < 3 {
         eprintln!("usage: replay run|grid <op> [key=value ...]");
